@@ -72,6 +72,13 @@ func powRecord(n, m int) {
 				for j := 0; j < k; j++ {
 					ids = append(ids, 1+rng.Intn(m))
 				}
+			case c < 7 && len(pend) >= 2 && rng.Intn(2) == 0: // one call carrying the next header of several branches,
+				// in any order: a header that reorganises the chain followed, in the same call, by one extending the old head
+				for _, j := range rng.Perm(len(pend)) {
+					if len(ids) < 4 {
+						ids = append(ids, pend[j])
+					}
+				}
 			case c < 7 && len(pend) > 0: // a batch that is a valid chain segment, preceded by a known header
 				x := pend[rng.Intn(len(pend))]
 				ids = []int{rng.Intn(x), x}
